@@ -14,3 +14,48 @@ def imps_of_magnitude(a):
 
 def imps(d):
     return ite(d >= 0, imps_of_magnitude(abs(d)), -imps_of_magnitude(abs(d)))
+
+
+# ---- Law 77: duplicate bridge scoring ----------------------------------------------------------
+# dbl: 0 undoubled, 1 doubled, 2 redoubled.  denom_kind: 0 minor, 1 major, 2 no-trump.
+
+def times_dbl(v, dbl):
+    return ite(dbl == 0, v, ite(dbl == 1, 2 * v, 4 * v))
+
+
+def trick_score(level, kind):
+    """Points for the odd tricks bid and made, undoubled."""
+    return ite(kind == 0, 20 * level, ite(kind == 1, 30 * level, 40 + 30 * (level - 1)))
+
+
+def made_score(level, kind, dbl, vul, over):
+    below = times_dbl(trick_score(level, kind), dbl)
+    game = ite(below >= 100, ite(vul, 500, 300), 50)
+    slam = ite(level == 6, ite(vul, 750, 500), ite(level == 7, ite(vul, 1500, 1000), 0))
+    insult = ite(dbl == 0, 0, ite(dbl == 1, 50, 100))
+    per_over_undoubled = ite(kind == 0, 20 * over, 30 * over)
+    overs = ite(dbl == 0, per_over_undoubled,
+                ite(dbl == 1, ite(vul, 200 * over, 100 * over), ite(vul, 400 * over, 200 * over)))
+    return below + game + slam + insult + overs
+
+
+def down_score(dbl, vul, down):
+    """Penalty (positive number) for `down` undertricks."""
+    undoubled = ite(vul, 100 * down, 50 * down)
+    # doubled, not vulnerable: 100, then 200 for the 2nd and 3rd, then 300 each
+    dnv = 100 + 200 * min(down - 1, 2) + 300 * max(down - 3, 0)
+    # doubled, vulnerable: 200, then 300 each
+    dv = 200 + 300 * (down - 1)
+    doubled = ite(vul, dv, dnv)
+    return ite(dbl == 0, undoubled, ite(dbl == 1, doubled, 2 * doubled))
+
+
+def dup_score(level, kind, dbl, vul, tricks):
+    need = level + 6
+    return ite(tricks >= need, made_score(level, kind, dbl, vul, tricks - need),
+               -down_score(dbl, vul, need - tricks))
+
+
+def status(x, xx):
+    """Effective doubling status of a contract with flags x / xx: redoubled whenever xx."""
+    return ite(xx, 2, ite(x, 1, 0))
